@@ -23,6 +23,7 @@ CONSTANTS Mode,         \* "dag" | "pregel" | "wf"
           MaxEdges,
           FailKinds,    \* subset of {"err", "panic"}: one END-feeding node may fail this way (the empty choice is always included)
           AllowDangling, \* wf: nodes that nothing consumes (executions the run does not wait for)
+          MaxMark,      \* up to this many static interrupt marks (interrupt-after / interrupt-before nodes), only without failing / rerun nodes
           MaxRerun      \* up to this many END-feeding nodes ask for InterruptAndRerun on their first attempt (only without a failing node)
 
 AllNames == <<"a", "b", "c", "d">>
@@ -33,14 +34,15 @@ Ord(n) == CASE n = START -> 0 [] n = "a" -> 1 [] n = "b" -> 2 [] n = "c" -> 3 []
 EdgeU == {e \in (Nodes \cup {START}) \X (Nodes \cup {END}) : Ord(e[1]) < Ord(e[2]) /\ ~(e[1] = START /\ e[2] = END)}
 ERank(e) == Ord(e[1]) * 10 + Ord(e[2])
 
-VARIABLES phase, edges, fail, rerun
-vars == <<phase, edges, fail, rerun>>
+VARIABLES phase, edges, fail, rerun, marks
+vars == <<phase, edges, fail, rerun, marks>>
 
-Init == phase = "e" /\ edges = {} /\ fail = <<>> /\ rerun = {}
+NoMarks == [after |-> {}, before |-> {}]
+Init == phase = "e" /\ edges = {} /\ fail = <<>> /\ rerun = {} /\ marks = NoMarks
 
 MaxRank == IF edges = {} THEN 0 ELSE CHOOSE m \in {ERank(x) : x \in edges} : \A y \in edges : ERank(y) <= m
 AddEdge(e) == /\ phase = "e" /\ Cardinality(edges) < MaxEdges /\ ERank(e) > MaxRank
-              /\ edges' = edges \cup {e} /\ UNCHANGED <<phase, fail, rerun>>
+              /\ edges' = edges \cup {e} /\ UNCHANGED <<phase, fail, rerun, marks>>
 
 Preds(n) == {e[1] : e \in {x \in edges : x[2] = n}}
 Succs(n) == {e[2] : e \in {x \in edges : x[1] = n}}
@@ -65,6 +67,10 @@ Fails == {<<>>} \cup {<<[n |-> n, kind |-> k]>> : n \in EndAnc, k \in FailKinds}
 Finish == /\ phase = "e" /\ WellFormed
           /\ \E f \in Fails : fail' = f
           /\ \E rr \in SUBSET EndAnc : Cardinality(rr) <= MaxRerun /\ (fail' # <<>> => rr = {}) /\ rerun' = rr
+          /\ \E m \in [after : SUBSET EndAnc, before : SUBSET EndAnc] :
+               /\ Cardinality(m.after) + Cardinality(m.before) <= MaxMark
+               /\ ((fail' # <<>> \/ rerun' # {}) => m = NoMarks)
+               /\ marks' = m
           /\ phase' = "done" /\ UNCHANGED edges
 Next == (\E e \in EdgeU : AddEdge(e)) \/ Finish
 Spec == Init /\ [][Next]_vars
@@ -83,6 +89,6 @@ SeqOfSet(S, R(_)) == LET RECURSIVE F(_)
                      IN F(S)
 NodeSeq == SeqOfSet(Nodes, Ord)
 EdgeSeq == [i \in 1..Cardinality(edges) |-> LET e == SeqOfSet(edges, ERank)[i] IN <<e[1], e[2]>>]
-Case == [mode |-> Mode, nodes |-> NodeSeq, edges |-> EdgeSeq, fail |-> fail, rerun |-> SeqOfSet(rerun, Ord), orders |-> LinExt(Nodes), probes |-> Probes]
+Case == [mode |-> Mode, nodes |-> NodeSeq, edges |-> EdgeSeq, fail |-> fail, rerun |-> SeqOfSet(rerun, Ord), after |-> SeqOfSet(marks.after, Ord), before |-> SeqOfSet(marks.before, Ord), orders |-> LinExt(Nodes), probes |-> Probes]
 Emit == phase = "done" => PrintT(<<"CASE", ToJson(Case)>>)
 ================================================================================
